@@ -25,6 +25,7 @@ namespace GojaModel.C16
   "addr"          the address of a field is taken
   "call"          method call on a reference-typed field
   "helper"        call of another method of the instruction type (analysed transitively)
+`guard` is the INNERMOST enclosing condition of the access (e.g. `!($.extensible)` for the aliasing of a names map).
 `isLocal` (writes only): the receiver is a value receiver and only its private copy is written. -/
 structure ExecAcc where
   ty : String
@@ -74,11 +75,11 @@ def safeRows : List ExecAcc := [
   { ty := "definePrivateGetter", fn := "exec", ptr := true, kind := "helper", path := "$", sink := "definePrivateMethod.getPrivateMethods", guard := "", isLocal := false },
   { ty := "definePrivateMethod", fn := "exec", ptr := true, kind := "helper", path := "$", sink := "definePrivateMethod.getPrivateMethods", guard := "", isLocal := false },
   { ty := "definePrivateSetter", fn := "exec", ptr := true, kind := "helper", path := "$", sink := "definePrivateMethod.getPrivateMethods", guard := "", isLocal := false },
-  { ty := "enterBlock", fn := "exec", ptr := true, kind := "escape", path := "$.names", sink := "= vm.stash.names", guard := "$.stashSize > 0 && len($.names) > 0", isLocal := false },
+  { ty := "enterBlock", fn := "exec", ptr := true, kind := "escape", path := "$.names", sink := "= vm.stash.names", guard := "len($.names) > 0", isLocal := false },
   { ty := "enterCatchBlock", fn := "exec", ptr := true, kind := "escape", path := "$.names", sink := "= vm.stash.names", guard := "len($.names) > 0", isLocal := false },
-  { ty := "enterFunc", fn := "exec", ptr := true, kind := "escape", path := "$.names", sink := "= stash.names", guard := "len($.names) > 0 && !($.extensible)", isLocal := false },
-  { ty := "enterFunc1", fn := "exec", ptr := true, kind := "escape", path := "$.names", sink := "= stash.names", guard := "len($.names) > 0 && !($.extensible)", isLocal := false },
-  { ty := "enterFuncBody", fn := "exec", ptr := true, kind := "escape", path := "$.names", sink := "= stash.names", guard := "$.stashSize > 0 || $.extensible && len($.names) > 0 && !($.extensible)", isLocal := false },
+  { ty := "enterFunc", fn := "exec", ptr := true, kind := "escape", path := "$.names", sink := "= stash.names", guard := "!($.extensible)", isLocal := false },
+  { ty := "enterFunc1", fn := "exec", ptr := true, kind := "escape", path := "$.names", sink := "= stash.names", guard := "!($.extensible)", isLocal := false },
+  { ty := "enterFuncBody", fn := "exec", ptr := true, kind := "escape", path := "$.names", sink := "= stash.names", guard := "!($.extensible)", isLocal := false },
   { ty := "getPrivatePropId", fn := "exec", ptr := true, kind := "escape", path := "$.typ", sink := "arg2 vm.getPrivateProp", guard := "", isLocal := false },
   { ty := "getPrivatePropIdCallee", fn := "exec", ptr := true, kind := "escape", path := "$.typ", sink := "arg2 vm.getPrivateProp", guard := "", isLocal := false },
   { ty := "getPrivatePropRes", fn := "exec", ptr := true, kind := "helper", path := "$", sink := "getPrivatePropRes._get", guard := "", isLocal := false },
@@ -88,8 +89,8 @@ def safeRows : List ExecAcc := [
   { ty := "getTaggedTmplObject", fn := "exec", ptr := true, kind := "escape", path := "$.raw", sink := "arg0 cloneTemplateValues", guard := "", isLocal := false },
   { ty := "getTaggedTmplObject", fn := "exec", ptr := true, kind := "addr", path := "$.raw", sink := "lit taggedTemplateArray.idPtr", guard := "", isLocal := false },
   { ty := "getTaggedTmplObject", fn := "exec", ptr := true, kind := "addr", path := "$.cooked", sink := "lit taggedTemplateArray.idPtr", guard := "", isLocal := false },
-  { ty := "initStaticElements", fn := "exec", ptr := true, kind := "escape", path := "$.privateFields", sink := "arg1 vm.fillPrivateNamesMap", guard := "ok && h.privateEnvType != nil", isLocal := false },
-  { ty := "initStaticElements", fn := "exec", ptr := true, kind := "escape", path := "$.privateMethods", sink := "arg2 vm.fillPrivateNamesMap", guard := "ok && h.privateEnvType != nil", isLocal := false },
+  { ty := "initStaticElements", fn := "exec", ptr := true, kind := "escape", path := "$.privateFields", sink := "arg1 vm.fillPrivateNamesMap", guard := "h.privateEnvType != nil", isLocal := false },
+  { ty := "initStaticElements", fn := "exec", ptr := true, kind := "escape", path := "$.privateMethods", sink := "arg2 vm.fillPrivateNamesMap", guard := "h.privateEnvType != nil", isLocal := false },
   { ty := "loadVal", fn := "exec", ptr := false, kind := "escape-iface", path := "$.v", sink := "arg0 vm.push", guard := "", isLocal := false },
   { ty := "newArrowFunc", fn := "_exec", ptr := true, kind := "escape", path := "$.prg", sink := "= obj.prg", guard := "", isLocal := false },
   { ty := "newArrowFunc", fn := "exec", ptr := true, kind := "helper", path := "$", sink := "newArrowFunc._exec", guard := "", isLocal := false },
